@@ -10,6 +10,8 @@
 package main
 
 import (
+	"crypto/sha1"
+	"encoding/hex"
 	"encoding/json"
 	"fmt"
 	"os"
@@ -30,11 +32,27 @@ func verifDir() string {
 	return "/verif"
 }
 
-func repoDir() string {
+// repoDir is where the harness module's replace directive points.
+func repoDir() string { return "/repo" }
+
+// srcDir is the tree that is instrumented and built: /repo, or a scratch
+// copy named by VERIF_REPO (mutation runs; /repo itself stays untouched and
+// evidence/replays go to a scratch output directory).
+func srcDir() string {
 	if d := os.Getenv("VERIF_REPO"); d != "" {
-		return d
+		if a, err := filepath.Abs(d); err == nil && a != "/repo" {
+			return a
+		}
 	}
 	return "/repo"
+}
+
+func tag() string {
+	if s := srcDir(); s != repoDir() {
+		h := sha1.Sum([]byte(s))
+		return "-" + hex.EncodeToString(h[:4])
+	}
+	return ""
 }
 
 func goEnv() (string, []string) {
@@ -83,12 +101,12 @@ func harnesses() []string {
 // build instruments and builds one harness; returns the binary path.
 func build(id string, quiet bool) (string, error) {
 	vd := verifDir()
-	ov, err := instr.Generate(repoDir(), vd)
+	ov, err := instr.Generate(srcDir(), repoDir(), vd, tag())
 	if err != nil {
 		return "", fmt.Errorf("instrumentation: %w", err)
 	}
 	gobin, env := goEnv()
-	bin := filepath.Join(vd, ".build", "bin", id)
+	bin := filepath.Join(vd, ".build", "bin"+tag(), id)
 	os.MkdirAll(filepath.Dir(bin), 0755)
 	args := []string{"build", "-tags", "verif", "-overlay", ov, "-o", bin, "./harness/" + id}
 	cmd := exec.Command(gobin, args...)
@@ -196,6 +214,9 @@ func main() {
 	cmd.Dir = verifDir()
 	cmd.Stdout, cmd.Stderr = os.Stdout, os.Stderr
 	cmd.Env = os.Environ()
+	if t := tag(); t != "" {
+		cmd.Env = append(cmd.Env, "VERIF_OUT="+filepath.Join(verifDir(), ".build", "out"+t))
+	}
 	err = cmd.Run()
 	if ee, ok := err.(*exec.ExitError); ok {
 		os.Exit(ee.ExitCode())
